@@ -480,6 +480,8 @@ pipeline:
                 key.replace("/", "#"): value
                 for key, value in self._array.to_dict().items()
             }
+            # The values are stored as nested lists: keep their data type
+            dct["array_3d"]["dtype"] = str(self._array.dtype)
 
         else:
             raise NotImplementedError
@@ -502,7 +504,11 @@ pipeline:
                 key.replace("#", "/"): value for key, value in dct_array_3d.items()
             }
 
-            obj.array_3d = xr.DataArray.from_dict(new_dct)
+            array_3d = xr.DataArray.from_dict(new_dct)
+            if "dtype" in new_dct:  # Not present in files written by an older version
+                array_3d = array_3d.astype(new_dct["dtype"])
+
+            obj.array_3d = array_3d
 
         return obj
 
